@@ -1,25 +1,25 @@
-//! vcheck <ID> <quick|thorough> [--replay FILE]
-mod cli;
-mod engine;
-mod gen;
-mod model;
-mod props;
+//! Library behind the per-property check binaries: `cNN [CNN] <quick|thorough> [--replay FILE]`
+pub mod cli;
+pub mod engine;
+pub mod gen;
+pub mod model;
+pub mod props;
 
 use engine::{Outcome, Runtime, Tier};
 
 fn usage() -> ! {
-    eprintln!("usage: vcheck <C01..C20> <quick|thorough> [--replay FILE]");
+    eprintln!("usage: cNN [CNN] <quick|thorough> [--replay FILE]");
     std::process::exit(2);
 }
 
-fn main() {
+pub fn main_for(prop: props::PropDef) -> ! {
     let args: Vec<String> = std::env::args().collect();
-    if args.len() < 3 {
+    if args.len() < 2 {
         usage();
     }
-    let id_arg = args[1].to_uppercase();
     let (mut tier, mut replay) = (Tier::Quick, None);
-    let mut i = 2;
+    // the property id may be repeated as first argument
+    let mut i = if args[1].eq_ignore_ascii_case(prop.id) { 2 } else { 1 };
     while i < args.len() {
         match args[i].as_str() {
             "quick" => tier = Tier::Quick,
@@ -35,10 +35,6 @@ fn main() {
         }
         i += 1;
     }
-    let Some(prop) = props::lookup(&id_arg) else {
-        eprintln!("unknown property {id_arg}");
-        std::process::exit(2);
-    };
     engine::install_quiet_panic_hook();
     let mut rt = Runtime::new(prop.id, tier);
     if !rt.ska.exists() {
